@@ -321,7 +321,15 @@ def layout(toks, rng, features, comments=True):
     if cur:
         lines.append(cur)
     seps = [' ', '  ', '\t', ' \t ']
-    text = '\n'.join(rng.choice(['', ' ', '\t']) + rng.choice(seps).join(l) for l in lines)
+    body = [rng.choice(['', ' ', '\t']) + rng.choice(seps).join(l) for l in lines]
+    # line boundaries: mostly LF, sometimes CR LF / bare CR or one of the other boundaries str.splitlines() honours
+    # (a '#' comment ends at any of them)
+    if rng.random() < 0.25:
+        ends = ['\n'] * 6 + ['\r\n', '\r\n', '\r', '\x0b', '\x0c', '\x1c', '\x1d', '\x1e', '\x85', '\u2028', '\u2029']
+        features.add('unusual-line-ends')
+        text = ''.join(l + rng.choice(ends) for l in body[:-1]) + (body[-1] if body else '')
+    else:
+        text = '\n'.join(body)
     return text + rng.choice(['', '\n', ' \n\n'])
 
 
